@@ -17,6 +17,9 @@ SEPS = [ord(c) for c in "-_+/: ,"]
 DIGITS = [ord(c) for c in "0123456789"]
 LETTERS = [ord(c) for c in "abcxyzABXZ"]
 
+ALL_BRANCHES = ["identical", "tilde", "caret-vs-end", "caret-vs-segment", "equal", "leftover", "num-vs-alpha",
+                "num-length", "num-length-zeros", "num-digits", "num-digits-zeros", "alpha"]
+
 ASSUMPTIONS = [
     "the reference VerCmp is a transcription of rpm's lib/rpmvercmp.c (rpm >= 4.15); it is validated against the "
     "upstream rpmvercmp.at table kept in insights/tests/parsers/test_rpm_vercmp.py on every run",
@@ -220,6 +223,33 @@ def describe(trace, rej):
     return ("event %r" % (ev,), None)
 
 
+def selftest(traces):
+    """Binding demonstration (R5): a recorded trace with one corrupted result must be rejected,
+    and exactly there."""
+    import copy
+    muts = []
+    for want in ("vrow", "erow", "sel"):
+        for t in traces:
+            evs = [e for e in t["events"] if e["ev"] == want]
+            if evs:
+                e = copy.deepcopy(evs[0])
+                if want == "vrow":
+                    e["rs"][-1] = {0: 1, 1: -1, -1: 0}.get(e["rs"][-1], 0)
+                elif want == "erow":
+                    e["ops"][-1][3] = not e["ops"][-1][3]
+                else:
+                    e["mx"], e["mn"] = e["mn"], e["mx"]
+                    if e["mx"] == e["mn"]:
+                        e["mx"] = 0
+                muts.append(dict(id="selftest-" + want, strs=t["strs"], evrs=t["evrs"], events=[evs[0], e]))
+                break
+    val = validate(muts, jobs=1)
+    got = sorted((r["id"], r["line"]) for r in val["rejected"])
+    if got != sorted((m["id"], 2) for m in muts) or len(muts) != 3:
+        raise lib.MachineryError("self-test: corrupted traces were not rejected exactly where corrupted: %s" % (got,))
+    print("self-test: %d corrupted traces rejected at the corrupted event" % len(muts))
+
+
 def run(prop, tier):
     rng = random.Random(lib.seed() * 7919 + 13)
     t0 = time.time()
@@ -235,15 +265,25 @@ def run(prop, tier):
         lib.require_ok(r, "RpmVercmp model " + c["name"])
         return c, r
 
-    models, blocks, expected = [], [], {}
+    models, blocks, expected, branches = [], [], {}, {}
     with concurrent.futures.ThreadPoolExecutor(max_workers=3 if tier == "quick" else 4) as ex:
         for c, r in ex.map(model, cfgs):
             cases = sorted(r.cases, key=lambda x: x["k"])
             if [x["k"] for x in cases] != list(range(1, len(cases) + 1)) or not cases:
                 raise lib.MachineryError("model %s: emitted rows are not 1..N" % c["name"])
             items = [x["x"] for x in cases]
+            whys = set()
             for x in cases:
                 expected[(c["name"], x["k"])] = x["row"]
+                whys.update(x["whys"])
+            branches[c["name"]] = sorted(whys)
+            # vacuity: the fixed exhaustive alphabet must drive the reference through every branch
+            if c["name"] == "v8" and set(ALL_BRANCHES) - whys:
+                raise lib.MachineryError("branches of VerCmp never decisive in %s: %s"
+                                         % (c["name"], sorted(set(ALL_BRANCHES) - whys)))
+            if c["name"] == "evr" and not {"epoch"} <= whys or c["name"] == "evr" and not any(
+                    w.startswith("release.") for w in whys):
+                raise lib.MachineryError("EvrCmp never decided by epoch / release in %s: %s" % (c["name"], sorted(whys)))
             r.cases = []
             models.append(r)
             blocks.append(dict(name=c["name"], kind="ver" if c["mode"] == "ver" else "evr", items=items,
@@ -301,6 +341,9 @@ def run(prop, tier):
             if not same and (t["id"], ln) not in rejected:
                 raise lib.MachineryError("emitted table and trace validation disagree on %s event %d" % (t["id"], ln))
 
+    if tier == "thorough" or os.environ.get("VERIF_SELFTEST"):
+        selftest(traces)
+
     verdict = lib.Verdict(prop, tier)
     per_sig = {}
     for rj in val["rejected"]:
@@ -348,7 +391,7 @@ def run(prop, tier):
                    laws_checked_on_model=["Reflexive", "WalkReflexive", "Antisymmetric", "TotalPreorder(rank)",
                                           "ThreeValued", "OpsExactlyOne", "EvrOrder", "Transitive(triples)",
                                           "EqIsCongruence(triples)"],
-                   upstream_table_rows_validated=ntable, driver_stats=stats,
+                   upstream_table_rows_validated=ntable, driver_stats=stats, reference_branches_decisive=branches,
                    exhaustive=False))
     return verdict.finish(ev)
 
